@@ -78,6 +78,49 @@ def boundary_cases(draw):
             "nseed": draw(st.integers(0, 5)), "profile": "boundaries"}
 
 
+@st.composite
+def large_cases(draw):
+    """All nine heuristics on 40-300 items (greedy / round robin with up to 40 bins): size thresholds, many bins, long runs."""
+    alg = draw(st.sampled_from(ALGS))
+    pres = draw(st.sampled_from(["list", "list", "array", "dict-str", "dict-int", "names", "names-array"]))
+    nseed = draw(st.integers(0, 5))
+    n = draw(st.sampled_from([40, 64, 65, 100, 128, 129, 200, 256, 257, 300])) + draw(st.integers(0, 3))
+    seed = draw(st.integers(0, 2 ** 40))
+    if alg in ("greedy", "roundrobin"):
+        k = draw(st.sampled_from([2, 3, 7, 8, 9, 16, 17, 32, 33, 40]))
+        hi = draw(st.sampled_from([9, 1000, 10 ** 6]))
+        return {"alg": alg, "values": S.splitmix(seed, n, 0 if seed % 4 == 0 else 1, hi), "numbins": k, "pres": pres, "nseed": nseed,
+                "profile": f"large-uniform-{hi}"}
+    C = draw(st.sampled_from([10, 12, 30, 100, 101, 1000]))
+    if alg in cases.PACKERS:
+        style = draw(st.sampled_from(["uniform", "small", "big", "few-values"]))
+        lo, hi = {"uniform": (0 if seed % 4 == 0 else 1, C), "small": (1, max(1, C // 3)), "big": (C // 3, C), "few-values": (1, C)}[style]
+        values = S.splitmix(seed, n, lo, hi)
+        if style == "few-values":
+            pool = S.splitmix(seed + 1, 3, 1, C)
+            values = [pool[i] for i in S.splitmix(seed, n, 0, 2)]
+        return {"alg": alg, "values": values, "binsize": C, "pres": pres, "nseed": nseed, "profile": "large-" + style}
+    style = draw(st.sampled_from(["uniform", "small", "classes", "with-big"]))
+    if style == "classes":     # values around the class boundaries of the 2/3 and 3/4 algorithms
+        pool = sorted({x for x in (C // 2 - 1, C // 2, C // 2 + 1, C // 3 - 1, C // 3, C // 3 + 1, 1, 2, C - 1, C) if x >= 1})
+        values = [pool[i] for i in S.splitmix(seed, n, 0, len(pool) - 1)]
+    else:
+        lo, hi = {"uniform": (1, C), "small": (1, max(1, C // 4)), "with-big": (1, 2 * C)}[style]
+        values = S.splitmix(seed, n, lo, hi)
+    return {"alg": alg, "values": values, "binsize": C, "pres": pres, "nseed": nseed, "profile": "large-" + style}
+
+
+def valid_large(case):
+    v = case.get("values")
+    if case.get("alg") not in ALGS or not isinstance(v, list) or not (1 <= len(v) <= 400) or not all(isinstance(x, int) for x in v):
+        return False
+    if "numbins" in case:
+        return case["alg"] in ("greedy", "roundrobin") and isinstance(case["numbins"], int) and 1 <= case["numbins"] <= 64 and min(v) >= 0
+    if case["alg"] in cases.PACKERS:
+        return cases.valid_packing_case(case)
+    return case["alg"] in ("decreasing", "twothirds", "threequarters") and cases.valid_covering_case(case)
+
+
 def valid(case):
     if "numbins" in case:
         return cases.valid_partition_case(dict(case, alg="greedy"))
@@ -96,6 +139,9 @@ def legs(tier):
             "non-trivial = flipping one comparison (<= vs <, >= vs >, order, class threshold) in the reference changes its "
             "answer on this very case, i.e. a one-character change of that comparison would be caught by it",
             strategy=random_cases(), n_quick=10000, n_thorough=300000, valid=valid, floor=0.3),
+        Leg("large-inputs", evaluate, "hypothesis: the nine heuristics on 40-303 items (sizes around powers of two included; greedy / round "
+            "robin with 2-40 bins; class-boundary values for the covers), seven presentations; same oracle and rule",
+            strategy=large_cases(), n_quick=1200, n_thorough=24000, valid=valid_large, floor=0.3),
         Leg("boundaries", evaluate, "hypothesis: values at C/2, C/3, C-C/2, C-C/3 (+-1), exact fills and ties; same rule",
             strategy=boundary_cases(), n_quick=4000, n_thorough=100000, valid=valid, floor=0.3),
     ]
